@@ -1,6 +1,7 @@
 /* C05 harness (recursion): argv[1] = dirfile; stdin: field names, one per
- * line.  For each: gd_getdata64 (8 samples from 0, FLOAT64) on a fresh handle;
- * prints "<field> <error> <recurse_level after>" */
+ * line.  For each: gd_getdata64 (8 samples from 0, FLOAT64), gd_eof, gd_bof, gd_spf, then gd_seek, gd_tell,
+ * gd_native_type, gd_raw_close, gd_sync; prints "<field> <errors of the first four> <recurse_level> <errors of
+ * the other five> <recurse_level>".  alarm(30): an evaluator that fans out over a cycle is killed. */
 #include "internal.h"
 int main(int argc, char **argv)
 {
@@ -16,7 +17,14 @@ int main(int argc, char **argv)
     gd_eof64(D, line); int e2 = gd_error(D);
     gd_bof64(D, line); int e3 = gd_error(D);
     gd_spf(D, line); int e4 = gd_error(D);
-    printf("%s %d %d %d %d %d\n", line, e1, e2, e3, e4, D->recurse_level);
+    int lv1 = D->recurse_level;
+    /* the other evaluators that walk the field graph on the same depth counter */
+    gd_seek64(D, line, 0, 3, GD_SEEK_SET); int e5 = gd_error(D);
+    gd_tell64(D, line); int e6 = gd_error(D);
+    gd_native_type(D, line); int e7 = gd_error(D);
+    gd_raw_close(D, line); int e8 = gd_error(D);
+    gd_sync(D, line); int e9 = gd_error(D);
+    printf("%s %d %d %d %d %d %d %d %d %d %d %d\n", line, e1, e2, e3, e4, lv1, e5, e6, e7, e8, e9, D->recurse_level);
   }
   gd_discard(D);
   return 0;
